@@ -360,3 +360,81 @@ func (c *Ctx) ruleStoreAll(rule string) {
 		c.R.Unresolved(rule, "the struct mapping loop (field lookup through a StructField descriptor inside a loop)")
 	}
 }
+
+// R-SUPPLIEDNONNIL (C01 / C03, the producer side of R-UNSETNIL): in the field of a struct-mapped object a nil slice or
+// map means "not supplied". What Unserialize of a list or map schema returns for a value that *was* supplied must
+// therefore never be nil - not even for the empty list: an explicitly empty list is present for the rules evaluated on
+// the raw map (required-if, conflicts) and would be absent for the same rules evaluated on the struct. Obligation: in
+// the Unserialize method of every schema type whose reflected type is a slice or map (the method calls reflect.MakeSlice
+// / MakeMap / MakeMapWithSize), every accepting return hands out `x.Interface()` of a Value made by one of those calls
+// (through phis and Append), never of reflect.Zero / reflect.New(...).Elem() or a nil constant.
+func (c *Ctx) ruleSuppliedNonNil(rule string) {
+	isMake := func(call *ssa.Call) bool {
+		switch core.StaticCalleeName(&call.Call) {
+		case "reflect.MakeSlice", "reflect.MakeMap", "reflect.MakeMapWithSize", "reflect.Append", "reflect.AppendSlice":
+			return true
+		}
+		return false
+	}
+	var made func(v ssa.Value, seen map[ssa.Value]bool) bool
+	made = func(v ssa.Value, seen map[ssa.Value]bool) bool {
+		if seen[v] {
+			return true
+		}
+		seen[v] = true
+		switch x := v.(type) {
+		case *ssa.Call:
+			return isMake(x)
+		case *ssa.Phi:
+			for _, e := range x.Edges {
+				if !made(e, seen) {
+					return false
+				}
+			}
+			return len(x.Edges) > 0
+		}
+		return false
+	}
+	n := 0
+	for _, fn := range c.M.SortedFuncs(c.scopePkg("schema")) {
+		if fn.Name() != "Unserialize" || fn.Signature.Recv() == nil {
+			continue
+		}
+		makes := false
+		for _, b := range fn.Blocks {
+			for _, in := range b.Instrs {
+				if call, ok := in.(*ssa.Call); ok && isMake(call) {
+					makes = true
+				}
+			}
+		}
+		if !makes {
+			continue
+		}
+		ei := core.ErrorResultIndex(fn.Signature)
+		if ei < 0 {
+			continue
+		}
+		cnt := 0
+		for _, ret := range core.ReturnsOf(fn) {
+			if c.M.ProvablyNonNilError(core.RetVal(ret, ei), ret.Block()) {
+				continue
+			}
+			n++
+			cnt++
+			k := key(rule, c.M.Key(fn), sprintf("accepting return #%d hands out a made (non-nil) container", cnt))
+			rv := core.Unwrap(core.RetVal(ret, 0))
+			ok := false
+			if ic, isCall := rv.(*ssa.Call); isCall && reflectValueMethod(ic) == "Interface" {
+				ok = made(ic.Call.Args[0], map[ssa.Value]bool{})
+			}
+			if ok {
+				c.R.Ok(rule, k, c.M.InstrPos(ret), "result of Unserialize for a supplied list / map", "Interface() of a Value made by reflect.MakeSlice / MakeMap on every incoming edge")
+			} else {
+				c.R.Bad(rule, k, c.M.InstrPos(ret), "Unserialize of a list / map can return a value that was not made by MakeSlice / MakeMap",
+					"a nil slice / map (reflect.Zero, a nil constant) in the field of a struct-mapped object means 'not supplied': an explicitly empty list that another property depends on (required_if_not, conflicts) is accepted by Unserialize and the result is refused by Validate and Serialize of the same schema")
+			}
+		}
+	}
+	c.R.Floor(rule, 2)
+}
